@@ -127,6 +127,10 @@ def scripted_urandom(n):
     return bytes((i * 73 + 41) % 256 for i in range(n))
 
 
+class ApiDiffers(Exception):
+    pass
+
+
 def expected_data(cmd, vec, observed):
     """the library API's answer for the same inputs. -> ("ok", data) | ("exc", text)"""
     from btc_hd_wallet.paper_wallet import PaperWallet
@@ -154,8 +158,17 @@ def expected_data(cmd, vec, observed):
             w = PaperWallet.from_bip39_seed_hex(vec["secret"], testnet=t)
         else:
             w = PaperWallet.from_entropy_hex(vec["secret"], password=pw, testnet=t)
-        return w.generate(account=acct, interval=iv)
-    return attempt(go)
+        data = w.generate(account=acct, interval=iv)
+        # "the API result" does not depend on whether the wallet object was duplicated on the way (copy / pickle round trip)
+        from .. import hdscen
+        for how, w2 in hdscen.clones(w)[1:2]:          # copy.deepcopy (C06 runs all three ways)
+            if json.loads(json.dumps(w2.generate(account=acct, interval=iv))) != json.loads(json.dumps(data)):
+                raise ApiDiffers("a %s of the wallet generates a different result than the wallet itself" % how)
+        return data
+    st, out = attempt(go)
+    if st != "ok" and str(out).startswith("ApiDiffers"):
+        return "differs", out
+    return st, out
 
 
 def _strings(x):
@@ -236,6 +249,9 @@ def judge(cmd, vec, labels, res):
             argv, badwhy, (" with rows such as %r" % hard[:2]) if hard else "")))
         return "violation", viols
     st, exp = expected_data(cmd, vec, data)
+    if st == "differs":
+        viols.append(V(P + ":api:duplicated-wallet:differs", "argv %r: %s" % (argv, exp)))
+        return "violation", viols
     if st != "ok":
         viols.append(V(P + ":main:served:api-refuses", "argv %r served although the API raises %s" % (argv, exp)))
         return "violation", viols
